@@ -18,7 +18,7 @@ from fractions import Fraction
 
 from .. import core
 from ..core import REPO
-from ..gen import gen_packtables
+from ..gen import gen_packtables, gen_packstereo
 
 LEVEL = 'proof'
 LEVEL_TEXT = ('The round trip decode(encode m) = m, bit-for-bit conformance of encode with the documented layout, the 3-bit '
@@ -51,7 +51,7 @@ _state = {'suspects': []}
 def generate(ctx):
     path, rows, pack_iso, unpack_iso, elems = gen_packtables.generate()
     _state.update(rows=rows, pack_iso=pack_iso, unpack_iso=unpack_iso, elems=elems)
-    return [path]
+    return [path, gen_packstereo.generate()]
 
 
 # ------------------------------------------------------------------------------------------------
@@ -441,7 +441,10 @@ def oracle_mol(mol, common=None):
             out.append(('C10/pack_len', f'pack_len {ln} != {len(mol._atoms)} atoms'))
         d = diff_mols(mol, u)
         if d:
-            out.append(('C10/roundtrip/' + d[0], d[1]))
+            sig = 'C10/roundtrip/' + d[0]
+            if d[0] == 'bond-stereo' and shared_stereo_atoms(mol):
+                sig += '/shared-atom'
+            out.append((sig, d[1]))
     # the other public writers give the same bytes
     try:
         if zlib.decompress(bytes(mol)) != data or mol.pach(compressed=False) != data or zlib.decompress(mol.pach()) != data:
@@ -466,6 +469,9 @@ def oracle_mol(mol, common=None):
                                         f'bytes raised {e!r}'))
                             break
                         d = diff_mols(mol, u) if type(u).__name__ == 'MoleculeContainer' else ('type', f'returned {type(u).__name__}')
+                        if d and d[0] == 'bond-stereo' and shared_stereo_atoms(mol):
+                            out.append(('C10/roundtrip/bond-stereo/shared-atom', f'{nm} of the documented version-{ver} bytes: {d[1]}'))
+                            break
                         if d:
                             out.append((f'C10/published-v{ver}/{nm}/{d[0]}', f'{nm}(compressed={compressed}) of the documented '
                                         f'version-{ver} bytes: {d[1]}'))
@@ -476,6 +482,23 @@ def oracle_mol(mol, common=None):
                 except Exception as e:
                     out.append((f'C10/published-v{ver}/pack_len', f'pack_len raised {e!r}'))
     return out
+
+
+def shared_stereo_atoms(mol):
+    """atoms that are a dictionary key (end or centre atom) of two different cis/trans units of the REAL perception:
+    two stereogenic double bonds that share an atom (needs an atom with > 2 neighbours and two double bonds)"""
+    try:
+        paths = [p for p in mol.stereogenic_cumulenes if len(p) % 2 == 0]
+    except Exception:
+        return set()
+    seen, shared = {}, set()
+    for k, p in enumerate(paths):
+        i = len(p) // 2
+        for x in {p[0], p[-1], p[i - 1], p[i]}:
+            if x in seen and seen[x] != k:
+                shared.add(x)
+            seen[x] = k
+    return shared
 
 
 def block_of(mol, i):
@@ -749,6 +772,8 @@ def add_mol_cases(batch, name, mol, sample=False):
             return f'the theorems\' hypothesis WF does not hold for a molecule within the format limits [{name}]: {res}'
         return None
     batch.add('wf-hypothesis', 'wf', req, c_wf, nt)
+    if len(mol._atoms) <= 1500:
+        add_perception_cases(batch, name, mol, req, lim, sus)
     if sample:
         ctx.sample({'request': line('pack', req)[:300], 'real': (rp[0] + ' ' + ' '.join(map(str, rp[1])))[:300] if rp[0] == 'ok' else rp})
     if rp[0] != 'ok':
@@ -798,9 +823,11 @@ def add_mol_cases(batch, name, mol, sample=False):
             own = {}
         oreq = [len(own)] + [v for k, (p, q) in own.items() for v in (k, p, q)]
 
+        shared = bool(shared_stereo_atoms(mol))
+
         def c_cok(res):
-            ctx.dist('centersOKb=%s' % (res[1][0] if res[0] == 'ok' else res))
-            if lim and res != ('ok', [1]):
+            ctx.dist('centersOKb=%s%s' % (res[1][0] if res[0] == 'ok' else res, '/shared-atom' if shared else ''))
+            if lim and res != ('ok', [1]) and not shared:
                 return f'hypothesis CentersOK of the stereo round-trip theorem does not hold for the real centers dictionary [{name}]: {res}'
             return None
         batch.add('centers-hypothesis', 'cok', oreq + req, c_cok, nt)
@@ -819,16 +846,218 @@ def add_mol_cases(batch, name, mol, sample=False):
     batch.add('pack_len', 'packlen', data, c_len, nt)
 
 
+def real_perceived(mol):
+    """the five cached properties of the REAL perception, flattened like the driver's <perceived>"""
+    try:
+        cum = list(mol.cumulenes)
+        sg = mol.stereogenic_cumulenes
+        t, c, al = mol._stereo_cis_trans_terminals, mol._stereo_cis_trans_centers, mol._stereo_allenes_terminals
+    except KeyError:
+        return 'err', 'key'
+    except Exception as e:
+        return 'err', 'crash:' + type(e).__name__
+    out = [len(cum)]
+    for p_ in cum:
+        out += [len(p_), *p_]
+    out.append(len(sg))
+    for p_, (n1, m1, n2, m2) in sg.items():
+        out += [len(p_), *p_, n1, m1, -1 if n2 is None else n2, -1 if m2 is None else m2]
+    for d in (t, c, al):
+        out.append(len(d))
+        for k, (a, b) in d.items():
+            out += [k, a, b]
+    return 'ok', out
+
+
+def add_perception_cases(batch, name, mol, req, lim, sus):
+    """model `perceive` vs the real cached properties (lists and dict key order compared verbatim), and the executable
+    hypotheses of the stereo round-trip theorem on molecules that carry cis/trans marks"""
+    ctx = batch.ctx
+    rp = real_perceived(mol)
+    if rp[0] == 'ok':
+        ncum = rp[1][0]
+        ctx.dist('perceive:cumulenes=%s' % ('0' if not ncum else '1' if ncum == 1 else '2+'))
+        lens = []
+        it = iter(rp[1][1:])
+        for _ in range(ncum):
+            k = next(it)
+            lens.append(k)
+            for _ in range(k):
+                next(it)
+        for k in set(lens):
+            ctx.dist('perceive:path-len=%d' % min(k, 9))
+    marked = any(getattr(b, '_stereo', None) is not None for *_, b in mol.bonds())
+
+    def c_perc(res):
+        if res[0] != rp[0] or list(res[1]) != list(rp[1]):
+            _state['suspects'].append(sus)
+            return f'perception: model {res[0]} {str(res[1])[:300]} real {rp[0]} {str(rp[1])[:300]} [{name}]'
+        return None
+    batch.add('perceive', 'perceive', req, c_perc, bool(rp[0] == 'ok' and rp[1][0]))
+    if marked and rp[0] == 'ok':
+        shared = bool(shared_stereo_atoms(mol))
+
+        def c_hyp(res):
+            ctx.dist('perceived-hypotheses=%s' % (' '.join(map(str, res[1])) if res[0] == 'ok' else res))
+            if res[0] != 'ok':
+                return f'perception hypotheses: model {res} [{name}]'
+            t, k, d = res[1]
+            if lim and (t != 1 or k != 1):
+                return (f'hypotheses of the perceived stereo round-trip theorem do not hold on a real molecule: terminals-equal={t} '
+                        f'marks-on-perceived-centres={k} [{name}]')
+            if bool(d) == shared:
+                return f'keysDisjointb={d} but the real perception has shared key atoms={shared} [{name}]'
+            return None
+        batch.add('perceived-hypotheses', 'phyp', req, c_hyp, True)
+
+
+def shuffled_build(rng, atoms, bonds, numbers=None):
+    """`build` with a random atom order, random bond insertion order and direction, optionally random atom numbers"""
+    ids = [a['n'] for a in atoms]
+    mp = dict(zip(ids, numbers)) if numbers else {i: i for i in ids}
+    atoms = [dict(a, n=mp[a['n']]) for a in atoms]
+    bonds = [((mp[a], mp[b], o) if rng.random() < 0.5 else (mp[b], mp[a], o)) for a, b, o in bonds]
+    rng.shuffle(atoms)
+    rng.shuffle(bonds)
+    return build(atoms, bonds)
+
+
+def mark_cis_trans(rng, mol, p=0.8):
+    """put a cis/trans mark on the central bond of (a random subset of) the stereogenic units the REAL perception reports"""
+    try:
+        paths = [q for q in mol.stereogenic_cumulenes if len(q) % 2 == 0]
+    except Exception:
+        return mol
+    for q in paths:
+        if rng.random() < p:
+            i = len(q) // 2
+            mol._bonds[q[i - 1]][q[i]]._stereo = rng.random() < 0.5
+    mol.flush_cache()
+    return mol
+
+
+CUM_ENDS = [  # (name, substituent atoms [(z, order)] on an end atom)
+    ('CC', [(6, 1), (6, 1)]), ('C', [(6, 1)]), ('H-only', []), ('explicit-H', [(1, 1)]), ('H+C', [(1, 1), (6, 1)]),
+    ('F,Cl', [(9, 1), (17, 1)]), ('metal', [(26, 1)]), ('metal+C', [(26, 1), (6, 1)]), ('dative-metal', [(26, 8)]),
+    ('dative-metal+C', [(26, 8), (6, 1)]), ('triple', [(6, 3)]), ('C+any', [(6, 1), (6, 8)]), ('CCC', [(6, 1), (6, 1), (6, 1)]),
+    ('Li', [(3, 1)]), ('Na+C', [(11, 1), (6, 1)])]
+
+
+def gen_cumulene(ctx):
+    """stereo perception: chains of 1..7 cumulated double bonds with every end pattern, hetero-cumulenes, rings, atoms with
+    more than two neighbours inside a chain (sulfones, ylides: two double bonds sharing an atom), metals in and at the chain,
+    random multigraph-free graphs rich in double bonds; every molecule in random atom / neighbour order and numbering"""
+    rng = ctx.rng
+    quick = ctx.quick
+
+    def chain(zs, left, right, extra=()):
+        atoms = [{'n': i + 1, 'z': z, 'h': 0} for i, z in enumerate(zs)]
+        bonds = [(i + 1, i + 2, 2) for i in range(len(zs) - 1)]
+        k = len(zs)
+        for end, subs in ((1, left), (len(zs), right)):
+            for z, o in subs:
+                k += 1
+                atoms.append({'n': k, 'z': z, 'h': 0})
+                bonds.append((end, k, o))
+        for pos, z, o in extra:
+            k += 1
+            atoms.append({'n': k, 'z': z, 'h': 0})
+            bonds.append((pos, k, o))
+        return atoms, bonds
+
+    def emit(name, atoms, bonds, copies=2):
+        for c in range(copies):
+            nums = rng.sample(range(1, 4096), len(atoms)) if c else None
+            m = shuffled_build(rng, atoms, bonds, nums) if c else build(atoms, bonds)
+            yield f'cum:{name}#{c}', mark_cis_trans(rng, m, 1.0 if c == 0 else 0.7)
+
+    # all-carbon chains of 2..8 atoms (1..7 double bonds) x end patterns
+    for L in range(2, 9):
+        ends = CUM_ENDS if (not quick or L <= 4) else rng.sample(CUM_ENDS, 5)
+        for ln, left in ends:
+            for rn, right in (ends if L == 2 and not quick else rng.sample(CUM_ENDS, 2 if quick else 4)):
+                a, b = chain([6] * L, left, right)
+                yield from emit(f'C{L}[{ln}|{rn}]', a, b)
+    # hetero-cumulenes and chains with hetero / non-double-bond-forming atoms inside
+    HET = [[7, 6, 7], [7, 6, 16], [8, 6, 8], [6, 7, 7], [7, 7, 7], [16, 6, 16], [6, 16, 6], [6, 15, 6], [6, 6, 8], [6, 6, 7],
+           [7, 6], [7, 7], [6, 8], [6, 16], [14, 14], [6, 14, 6], [6, 26, 6], [6, 6, 26, 6, 6], [26, 6, 6], [6, 9, 6],
+           [6, 6, 6, 7], [7, 6, 6, 6, 7], [8, 6, 6, 6, 6, 8], [6, 5, 6], [34, 6, 34], [6, 6, 13]]
+    for zs in HET:
+        for ln, left in rng.sample(CUM_ENDS, 3 if quick else 6):
+            rn, right = rng.choice(CUM_ENDS)
+            a, b = chain(zs, left if zs[0] not in (8, 16, 34) else [], right if zs[-1] not in (8, 16, 34) else [])
+            yield from emit(f'het{zs}[{ln}|{rn}]', a, b)
+    # an atom with more than two neighbours inside a chain of double bonds (sulfone, sulfoximine, ylides, C(=C)(=C)=C)
+    for zc, nd, ns in ((16, 2, 2), (16, 2, 1), (15, 2, 1), (16, 3, 0), (16, 3, 1), (6, 3, 0), (15, 2, 2), (16, 2, 0), (6, 2, 1)):
+        for trial in range(2 if quick else 5):
+            atoms = [{'n': 1, 'z': zc, 'h': 0}]
+            bonds = []
+            k = 1
+            for d in range(nd):   # arms: =C(R)R', =O, =C=C(R)R', =N-R
+                arm = rng.choice(['CRR', 'O', 'C=CRR', 'NR', 'CR'])
+                if arm == 'O':
+                    k += 1; atoms.append({'n': k, 'z': 8, 'h': 0}); bonds.append((1, k, 2))
+                    continue
+                k += 1; first = k
+                atoms.append({'n': k, 'z': 7 if arm == 'NR' else 6, 'h': 0}); bonds.append((1, k, 2))
+                if arm == 'C=CRR':
+                    k += 1; atoms.append({'n': k, 'z': 6, 'h': 0}); bonds.append((first, k, 2)); first = k
+                for _ in range({'CRR': 2, 'C=CRR': 2, 'NR': 1, 'CR': 1}[arm]):
+                    k += 1; atoms.append({'n': k, 'z': rng.choice([6, 6, 9, 1]), 'h': 0}); bonds.append((first, k, 1))
+            for _ in range(ns):
+                k += 1; atoms.append({'n': k, 'z': 6, 'h': 0}); bonds.append((1, k, 1))
+            yield from emit(f'branch[{zc},{nd},{ns}].{trial}', atoms, bonds, copies=3)
+    # rings: one double bond in a ring, an allene in a ring, a ring of cumulated double bonds, exocyclic chains
+    for size in (3, 5, 8, 9):
+        for ndb in (1, 2, 3, size):
+            if ndb > size:
+                continue
+            atoms = [{'n': i + 1, 'z': 6, 'h': 0} for i in range(size)]
+            bonds = [(i + 1, (i + 1) % size + 1, 2 if i < ndb else 1) for i in range(size)]
+            atoms.append({'n': size + 1, 'z': 6, 'h': 0}); bonds.append((1, size + 1, 1))
+            if ndb < size:
+                atoms.append({'n': size + 2, 'z': 6, 'h': 0}); bonds.append((ndb + 1, size + 2, 1))
+            yield from emit(f'ring[{size},{ndb}]', atoms, bonds)
+    for L in (2, 3, 4):   # exocyclic: ring atom = first atom of the chain
+        atoms = [{'n': i + 1, 'z': 6, 'h': 0} for i in range(5 + L)]
+        bonds = [(i + 1, (i + 1) % 5 + 1, 1) for i in range(5)] + [(5 + i, 6 + i, 2) for i in range(L)]
+        atoms += [{'n': 6 + L, 'z': 6, 'h': 0}, {'n': 7 + L, 'z': 9, 'h': 0}]
+        bonds += [(5 + L, 6 + L, 1), (5 + L, 7 + L, 1)]
+        yield from emit(f'exocyclic[{L}]', atoms, bonds)
+    # conjugated polyenes and several units in one molecule (dict key order over many paths)
+    for k in (2, 3, 5):
+        atoms = [{'n': i + 1, 'z': 6, 'h': 0} for i in range(2 * k + 2)]
+        bonds = [(i + 1, i + 2, 2 if i % 2 else 1) for i in range(2 * k + 1)]
+        yield from emit(f'polyene[{k}]', atoms, bonds, copies=3)
+    # random graphs rich in double bonds (degree <= 4, random elements incl. H, metals, halogens), no marks required
+    ZS = [6, 6, 6, 6, 7, 8, 16, 15, 1, 9, 26, 14, 5, 3]
+    for t in range(150 if quick else 1500):
+        n = rng.randint(2, 14)
+        atoms = [{'n': i + 1, 'z': rng.choice(ZS), 'h': 0} for i in range(n)]
+        deg = [0] * (n + 1)
+        bonds, used = [], set()
+        for i in range(2, n + 1):   # random tree + a few extra edges
+            j = rng.randint(1, i - 1)
+            if deg[i] < 4 and deg[j] < 4:
+                bonds.append((j, i, rng.choice([1, 2, 2, 2, 2, 3, 8]))); used.add((j, i)); deg[i] += 1; deg[j] += 1
+        for _ in range(rng.randint(0, 2)):
+            i, j = sorted(rng.sample(range(1, n + 1), 2))
+            if (i, j) not in used and deg[i] < 4 and deg[j] < 4:
+                bonds.append((i, j, rng.choice([1, 2, 2]))); used.add((i, j)); deg[i] += 1; deg[j] += 1
+        m = shuffled_build(rng, atoms, bonds, rng.sample(range(1, 4096), n) if t % 2 else None)
+        yield f'cum:random[{t}]', mark_cis_trans(rng, m, 0.6)
+
+
 def corr_molecules(ctx):
     b = Batch(ctx)
     k = 0
-    for gen in (gen_limits, gen_real, gen_big):
+    for gen in (gen_limits, gen_cumulene, gen_real, gen_big):
         for name, mol in gen(ctx):
             add_mol_cases(b, name, mol, sample=(k % 97 == 0))
             k += 1
             # the property oracle itself (published layout with the FROZEN isotope table, every public reader/writer, v2 and v0
             # documented bytes) runs on every limit molecule and every stereo / hand-made molecule, not only after a break
-            if (gen is gen_limits or name.startswith(('stereo:', 'hand:'))) and in_limits(mol):
+            if (gen is gen_limits or name.startswith(('stereo:', 'hand:', 'cum:'))) and in_limits(mol):
                 ctx.count(('oracle', name, k))
                 ctx.dist('stream:property-oracle')
                 for sig, what in oracle_mol(mol):
@@ -1373,6 +1602,11 @@ def run_input(inp):
         return oracle_mol(smiles(inp['smiles']))
     if k == 'lattice':
         return oracle_mol(lattice(inp['atoms'], tuple(inp['steps'])))
+    if k == 'api-shared-atom':   # through the public API only
+        from chython import smiles
+        m = smiles(inp['smiles'])
+        m.add_cis_trans_stereo(*inp['stereo'])
+        return oracle_mol(m)
     if k == 'rxn':
         roles = [[mol_from_json(m) for m in side] for side in inp['roles']]
         from chython import ReactionContainer
@@ -1419,7 +1653,7 @@ def search(ctx):
     if found:
         return
     common = gen_packtables.tables()[0]
-    for gen in (gen_limits, gen_real, gen_big):
+    for gen in (gen_limits, gen_cumulene, gen_real, gen_big):
         for name, mol in gen(ctx):
             if ctx.elapsed() > budget:
                 break
